@@ -132,6 +132,15 @@ func dumpTable(T *lr.ParsingTable, terms []string, tidx, nidx map[string]int, pi
 	for _, st := range T.States {
 		for _, a := range all {
 			act, err := T.ACTION(st, a)
+			if _, multi := err.(*lr.ConflictError); multi {
+				// a table that was returned without an error still holds several actions in one entry
+				ai := len(terms)
+				if a != grammar.Endmarker {
+					ai = tidx[string(a)]
+				}
+				acts = append(acts, fmt.Sprintf("%d:%d:9:0", int(st), ai))
+				continue
+			}
 			if err != nil || act == nil {
 				continue
 			}
